@@ -238,7 +238,9 @@ def _walk_lark_tree(op, *, data_def=None) -> data_algebra.expr_rep.Term:
             if r_op.data in ["list", "tuple", "set"]:  # any collection
                 assert len(r_op.children) == 1
                 contents = r_op.children[0]
-                if isinstance(contents, lark.tree.Tree) and (
+                if contents is None:
+                    raw_values = []  # the empty collection: [], ()
+                elif isinstance(contents, lark.tree.Tree) and (
                     contents.data in ["tuplelist_comp", "set_comp"]
                 ):
                     raw_values = contents.children
@@ -259,7 +261,11 @@ def _walk_lark_tree(op, *, data_def=None) -> data_algebra.expr_rep.Term:
                 return data_algebra.expr_rep.ListTerm(op_values)
             if r_op.data == "dict":
                 assert len(r_op.children) == 1
-                op_values = [_r_walk_lark_tree(vi) for vi in r_op.children[0].children]
+                op_values = []  # the empty dictionary: {}
+                if r_op.children[0] is not None:
+                    op_values = [
+                        _r_walk_lark_tree(vi) for vi in r_op.children[0].children
+                    ]
                 combined = dict()
                 for s in op_values:
                     for k, v in s.value.items():
